@@ -66,6 +66,7 @@ type Config struct {
 	NumCPU    int   // value returned by NumCPU(); 0 = real
 	ClockAlt  bool  // make time.Now a choice point
 	NoSched   bool  // do not create schedule choice points (always run default)
+	SwitchCost int  // cost of a non-default choice when the running thread is blocked or done (0 = free, as in CHESS)
 	YieldPkg  bool  // activate the package-wide statement yields (hashmap)
 	TraceOps  bool  // record the sequence of sync operations (for diagnostics)
 	FloatMenu []float64
@@ -274,7 +275,7 @@ func (x *Exec) threadExit(t *thread) {
 	}
 	idx := 0
 	if len(en) > 1 {
-		idx = x.choose(KSched, len(en), 0, func() string { return x.schedLabel(en) })
+		idx = x.choose(KSched, len(en), x.cfg.SwitchCost, func() string { return x.schedLabel(en) })
 	}
 	next := en[idx]
 	x.cur = next
@@ -352,7 +353,7 @@ func (x *Exec) point(op string, obj int, enabled func() bool) {
 	}
 	idx := 0
 	if len(en) > 1 && !x.cfg.NoSched {
-		cost := 0
+		cost := x.cfg.SwitchCost
 		if en[0] == t {
 			cost = 1
 		}
